@@ -16,6 +16,9 @@ UNIT = dict(
         dict(id="WatchedPath::recursive", kind="fn", src="crates/lib/src/watched_path.rs", impl="impl WatchedPath", name="recursive", rules=dict(pre_subst=[("path.into()", "path")])),
         dict(id="WatchedPath::non_recursive", kind="fn", src="crates/lib/src/watched_path.rs", impl="impl WatchedPath", name="non_recursive", rules=dict(pre_subst=[("path.into()", "path")])),
         dict(id="WatchedPath::from_pathbuf", kind="fn", src="crates/lib/src/watched_path.rs", impl="impl From<PathBuf> for WatchedPath", name="from", emit_impl="impl WatchedPath"),
+        dict(id="WatchedPath::from_str", kind="fn", src="crates/lib/src/watched_path.rs", impl="impl From<&str> for WatchedPath", name="from", emit_impl="impl WatchedPath", rules=dict(pre_subst=[("path.into()", "path")])),
+        dict(id="WatchedPath::from_string", kind="fn", src="crates/lib/src/watched_path.rs", impl="impl From<String> for WatchedPath", name="from", emit_impl="impl WatchedPath", rules=dict(pre_subst=[("path.into()", "path")])),
+        dict(id="WatchedPath::from_path", kind="fn", src="crates/lib/src/watched_path.rs", impl="impl From<&Path> for WatchedPath", name="from", emit_impl="impl WatchedPath", rules=dict(pre_subst=[("path.into()", "path")])),
         dict(id="Watcher::create", kind="fn", src=F, impl="impl Watcher", name="create",
              rules=dict(outline=[(".map_err(|err| CriticalError::FsWatcherInit", ".vx_init_err(self", "whole")], pre_subst=[
                  ("use notify::{Config, Watcher as _};", ""),
